@@ -38,7 +38,7 @@ CHECKS = {
              text="Deleting an unmarked message or truncating at a dot line depends on command order and message content; the reachable session state graph is explored completely for each maildir population and every transition is compared with the reference, so no sampled order is involved.",
              note=VK_NOTE),
  "C20": dict(engine="VK", category="exploration", design_ref="4/C20",
-             technique="bounded-exhaustive enumeration of hostile inputs on AddressSanitizer/UBSan builds: (SEQ) every truncation/field overwrite/boundary size of DNS answer templates through the real dns.c with the unused answer buffer poisoned, every address-list field body over a 16-character alphabet up to a length bound and deep nesting through token822 with exact-size buffers, every truncation/byte corruption of a cdb, every short control file, hostile SMTP reply streams (forms x codes x lengths around every limit x read sizes) through the real qmail-remote smtp() chained into qmail-rspawn report(); (VK) the real sanitised programs as processes under the virtual kernel on every single-point mutation (truncate, replace, delete, insert, number:=extreme, blow-up) of grammar-derived inputs for 16 input surfaces plus extremes around each documented limit; oracle = no sanitizer report, no fatal signal, documented exit code",
+             technique="bounded-exhaustive enumeration of hostile inputs on AddressSanitizer/UBSan builds: (SEQ) every truncation/field overwrite/boundary size of DNS answer templates through the real dns.c with the unused answer buffer poisoned, every address-list field body over a 16-character alphabet up to a length bound and deep nesting through token822 with exact-size buffers, every truncation/byte corruption of a cdb, every short control file, hostile SMTP reply streams (forms x codes x lengths around every limit x read sizes) through the real qmail-remote smtp() chained into qmail-rspawn report(); (VK) the real sanitised programs as processes under the virtual kernel on every single-point mutation (truncate, replace, delete, insert, number:=extreme, blow-up) of grammar-derived inputs for 19 input surfaces plus extremes around each documented limit; oracle = no sanitizer report, no fatal signal, documented exit code",
              text="Memory safety is a universally quantified negative; what a bounded exhaustive check can add to sampling is completeness over a stated input space: every single-point mutation of each grammar-derived input and every length around each limit is executed on the real, sanitised code, with buffers sized exactly so that one byte too many is a report.  Inputs outside those spaces (multi-point mutations, lengths between the probed ones) are not covered, and this is said in the evidence.",
              note=VK_NOTE + "; " + SEQ_NOTE),
  "C14": dict(engine="VK", category="model_checking", design_ref="4/C14",
